@@ -3,7 +3,7 @@ CONSTANTS
  Confs <- ShapeConfs
  MaxCloses = 3
  MaxOps = 2
- NormKeys = TRUE
+ KeyMode = "clean"
  Eager = TRUE
 SPECIFICATION Spec
 INVARIANTS TypeOK LocksNonNeg LocksExact MarkIsReach FallbackPresent CopyKeeps
